@@ -187,10 +187,20 @@ class Cond:
                     nvs = _map_names(vs, names)
                     return self._mk(("val", p[1]), nvs)
                 return self._mk(("val", p[1]), vs)
+            if p[0] == "call":
+                # discriminant of a call result (`if let Some(x) = self.f.take()`)
+                ret_ty = p[4][2] if len(p[4]) > 2 else None
+                names = prog.variant_names(ret_ty) if ret_ty else None
+                nvs = _map_names(vs, names) if names else vs
+                key = ("dexpr", expr_str(p), tuple(sorted(set(places_in(p)))))
+                return self._mk(key, nvs)
             return []
         if k == "place":
             ty = e[2]
             if ty == "bool":
+                bb = _as_bool(vs)
+                if bb is not None:
+                    vs = BOOL_TRUE if bb else BOOL_FALSE
                 return self._mk(("val", e[1]), vs)
             names = prog.variant_names(ty)
             if names:
@@ -781,7 +791,7 @@ class Flow:
 def world_str(w):
     parts = []
     for key, (pos, s) in sorted(w, key=lambda kv: str(kv[0])):
-        name = key[1] if key[0] == "val" else (key[1].split("::")[-1] + "(" + ",".join(key[2]) + ")" if key[0] == "call" else key[1])
+        name = key[1] if key[0] in ("val", "dexpr", "expr") else (key[1].split("::")[-1] + "(" + ",".join(key[2]) + ")" if key[0] == "call" else key[1])
         vals = "|".join(str(x) for x in sorted(s, key=str))
         parts.append("%s%s{%s}" % (name, "∈" if pos else "∉", vals))
     return "{" + ", ".join(parts) + "}" if parts else "{⊤}"
@@ -792,11 +802,12 @@ class Inter:
     call sites (receiver `self`) of the caller's worlds restricted to `self` keys;
     `entries` start from TOP."""
 
-    def __init__(self, prog, mods, fns, entries, track):
+    def __init__(self, prog, mods, fns, entries, track, carry=None):
         self.prog = prog
         self.mods = mods
         self.fns = {f.norm: f for f in fns}
         self.track = track
+        self.carry = carry
         self.entry = {n: frozenset() for n in self.fns}
         self.origin = {}
         for e in entries:
@@ -839,12 +850,20 @@ class Inter:
                 for g in tgts:
                     groot = self.mods._self_name(g) or "self"
                     proj = frozenset(self._project(w, root, groot) for w in ws)
+                    if self.carry:
+                        proj = frozenset(
+                            frozenset(dict(list(self._project(w, root, groot)) + self.carry(dict(w))).items())
+                            for w in ws
+                        )
                     self._merge(g.norm, proj, (n, b, t["span"]["line"]), work)
 
     def _project(self, w, root, groot):
         out = {}
         for key, vs in w:
             reads = Cond.key_reads(None, key)
+            if key[0] == "val" and key[1].startswith("<"):
+                out[key] = vs
+                continue
             if all(r == root or r.startswith(root + ".") for r in reads) and reads:
                 if root != groot:
                     continue
